@@ -101,6 +101,8 @@ MEMCPY_LAUNCH = "cudaMemcpyAsync"
 MEMSET_LAUNCH = "cudaMemsetAsync"
 MTIA_LAUNCH = "runFunction - job_prep_and_submit_for_execution"
 LAUNCH_NAMES = KERNEL_LAUNCHES + [MEMCPY_LAUNCH, MEMSET_LAUNCH]
+# host calls that launch device work but are not in HTA's fixed list of launch names
+UNLISTED_LAUNCHES = ["cudaLaunchCooperativeKernel"]
 # the launch names the launch-statistics API documents
 DOC_KERNEL_LAUNCHES = ["cudaLaunchKernel", "cudaLaunchKernelExC", MTIA_LAUNCH]
 
